@@ -10,7 +10,7 @@ PROPERTY = "C07"
 RULE = ("Hypothesis draws k first, then n = a*k + r with r uniform in 0..k-1 (so every residue n mod k is covered), d 1..3, "
         "dyadic points with generated duplicate rows and optionally lopsided geometry (most points near one spot, which makes the "
         "plain k-means labels very unbalanced), strategy in {distance, gain}, kmeans0, random_state, global seed, max_iter 2..40, "
-        "n_init 1..2, and query batches of any size m>=1. Oracle: validity predicates from the statement (label histogram in "
+        "n_init 1..2, and query batches of any size m>=1; clause `large` repeats the statement on batches of 257..1100 rows through a small model and on training sets of 257..420 rows (rows derived from a drawn seed). Oracle: validity predicates from the statement (label histogram in "
         "{floor(n/k), ceil(n/k)}, labels in range(k), finite centres, n_iter_<=max_iter, balanced predictions obey the same "
         "constraint on the batch, plain predictions are a Euclidean-nearest centre). Non-trivial: n mod k >= 2, or the plain "
         "KMeans labels (same seed) violate the quota by >= 2, or duplicate rows. Distinct by (strategy, kmeans0, n, k, d, data).")
@@ -33,7 +33,21 @@ def _model(case, balanced):
                                  balanced_predictions=balanced, init=case.get("init", "k-means++"))
 
 
+def _expand(case):
+    """large cases carry (size, seed) instead of the table itself: the rows are a pure function of the case"""
+    g = case.get("gen")
+    if not g:
+        return case
+    rs = np.random.RandomState(g["seed"])
+    X = rs.randint(-64, 65, size=(g["n"], g["d"])) / 8.0
+    if g.get("dups"):
+        X = X[rs.randint(0, max(1, g["n"] // 3), size=g["n"])]
+    Q = rs.randint(-64, 65, size=(g["m"], g["d"])) / 8.0
+    return dict(case, X=X.tolist(), Q=Q.tolist())
+
+
 def check_fit(case):
+    case = _expand(case)
     X = np.array(case["X"], dtype=np.float64)
     n, d = X.shape
     k = case["k"]
@@ -81,7 +95,8 @@ def check_fit(case):
     dup = len(np.unique(X, axis=0)) < n
     labels_ = [case["strategy"], "kmeans0" if case["kmeans0"] else "random-start", "nmodk=%d" % min(n % k, 3),
                "balanced-predict" if case["balanced"] else "plain-predict", "dup" if dup else "nodup",
-               "kmeans-unbalanced>=2" if unbalanced >= 2 else "kmeans-balanced", "k=1" if k == 1 else ("n==k" if n == k else "n>k")]
+               "kmeans-unbalanced>=2" if unbalanced >= 2 else "kmeans-balanced", "k=1" if k == 1 else ("n==k" if n == k else "n>k"),
+               "n>256" if n > 256 else "n<=256", "batch>256" if mq > 256 else "batch<=256"]
     return Outcome(labels_, (n % k >= 2) or unbalanced >= 2 or dup)
 
 
@@ -120,7 +135,22 @@ def _cases(draw, tier="quick"):
                 max_iter=draw(st.integers(2, 40)), n_init=draw(st.integers(1, 2)), balanced=draw(st.booleans()), Q=Q)
 
 
+@st.composite
+def _large_cases(draw, tier="quick"):
+    """sizes beyond a few hundred rows (internal block sizes, buffers): a large batch through a small model, or a large training set"""
+    k = draw(st.integers(2, 7))
+    big_fit = draw(st.integers(0, 3)) == 0
+    n = draw(st.integers(257, 420)) if big_fit else draw(st.integers(k, 40))
+    m = draw(st.integers(1, 40)) if big_fit else draw(st.sampled_from([257, 300, 511, 513, 600, 777, 1025]) if draw(st.booleans()) else st.integers(257, 1100))
+    return dict(gen=dict(n=n, m=m, d=draw(st.integers(1, 2)), seed=draw(st.integers(0, 2**31 - 2)), dups=draw(st.integers(0, 4)) == 0), k=k,
+                strategy=draw(st.sampled_from(["distance", "gain"])), kmeans0=draw(st.booleans()),
+                random_state=draw(st.one_of(st.none(), st.integers(0, 1000))), seed=draw(st.integers(0, 2**31 - 2)),
+                max_iter=draw(st.integers(2, 10)), n_init=1, balanced=True if not big_fit else draw(st.booleans()))
+
+
 CLAUSES = [
+    Clause("large", check_fit, strategy=lambda tier: _large_cases(tier), quick=48, thorough=800, quick_shards=16, thorough_shards=16,
+           doc="the same statement on batches / training sets of several hundred rows (sizes crossing 256, 512, 1024)"),
     Clause("fit-predict", check_fit, strategy=lambda tier: _cases(tier), quick=3200, thorough=60000, quick_shards=16,
            doc="sizes after fit, label range, finite centres, n_iter_, balanced / nearest predictions"),
 ]
